@@ -2,7 +2,7 @@
 # run the repository's tests of the touched package(s) against every adopted seeded change -> seeded/TESTS.tsv
 cd "$(dirname "${BASH_SOURCE[0]}")/.."
 out=seeded/TESTS.tsv; : > "$out.tmp"
-for n in $(ls seeded | grep -v '\.'); do
+for n in $(ls seeded | grep -v '\.' | grep -v '^_'); do
   paths=$(grep '^+++ b/src/pynguin/' seeded/$n/patch.diff | sed 's#+++ b/src/pynguin/##' | while read f; do
      d=$(dirname "$f"); top=${d%%/*}
      case "$top" in
